@@ -103,6 +103,7 @@ Section CodeBias.
         match entries_of_vals l with
         | None => Panic
         | Some es =>
+            if cap <? zlen es then Panic else        (* DataVec<_, cap> cannot hold more: not constructible *)
             '(sat_mask, sat_num) <- cb_mask es 0 0 ;;
             if 63 <? sat_num then Err CapacityExceeded
             else
